@@ -30,6 +30,9 @@ def multiply_by_linear_truncated(
 
     while keeping only coefficients within the existing polynomial shape.
     """
+    if np.shares_memory(out, polynomial):
+        polynomial = polynomial.copy()
+
     out[...] = constant * polynomial
 
     for axis, coefficient in enumerate(linear_coefficients):
